@@ -323,6 +323,7 @@ inductive Op where
   | lappendself (v : Nat) | lprependself (v : Nat) | linsertself (v : Nat) (pos : Nat) | lassignself (v : Nat)
   | aappendself (v : Nat) | aappendref (v : Nat) (i : Nat) | aresizeref (v : Nat) (n : Nat) (i : Nat)
   | aassignself (v : Nat) | aappendsub (v : Nat) (i : Nat) (n : Nat)
+  | aresized (v : Nat) (n : Nat)
 
 namespace State
 
@@ -439,6 +440,8 @@ def step (s : State) (op : Op) : Option (Res State) :=
   | .aresizeref v n i => if ok v then liftA s v ((s.getA v).resizeRef n i) else none
   | .aassignself v => if ok v then some { st := s } else none                 -- `if(this == &other) return *this;`
   | .aappendsub v i n => if ok v then liftA s v ((s.getA v).appendSub i n) else none
+  -- `resize(n)`: the default argument `const T& value = T()` is a value-initialised temporary (0 for `int`), outside the array
+  | .aresized v n => if ok v then liftA s v ((s.getA v).resize n 0) else none
   | .aeq v w =>
     -- `operator==`: `if(size() != other.size()) return false;` then element-wise comparison
     if ok v ∧ ok w then
